@@ -143,14 +143,18 @@ def group (st : Store) (s : Nat) (key : Key) (asSets : Bool) : Except Err (Store
 inductive Missing where | error | default (d : Option Int) | bogus
 deriving Repr, DecidableEq
 
-/-- `AgentSet.get(attr_names, handle_missing, default_value)`; one row per agent
-    (`none` in a row = Python `None` from `default_value=None`) -/
+/-- `[[getattr(agent, k, d) for k in ks] for agent in self]` (`none` = Python `None`) -/
+def rowsOf (st : Store) (s : Nat) (ks : List Nat) (d : Option Int) : List (List (Option Int)) :=
+  (st.get s).map fun i => ks.map fun k => match (st.agent i).attr k with | some v => some v | none => d
+
+/-- does every member have every one of the attributes? -/
+def allPresent (st : Store) (s : Nat) (ks : List Nat) : Bool :=
+  (st.get s).all fun i => ks.all fun k => ((st.agent i).attr k).isSome
+
+/-- `AgentSet.get(attr_names, handle_missing, default_value)`; one row per agent -/
 def get (st : Store) (s : Nat) (ks : List Nat) : Missing → Except Err (List (List (Option Int)))
-  | .error =>
-    match (st.get s).mapM (fun i => ks.mapM (fun k => (st.agent i).attr k)) with
-    | none => .error .attr
-    | some rows => .ok (rows.map (·.map some))
-  | .default d => .ok ((st.get s).map fun i => ks.map fun k => match (st.agent i).attr k with | some v => some v | none => d)
+  | .error => if allPresent st s ks then .ok (rowsOf st s ks none) else .error .attr   -- getattr raises
+  | .default d => .ok (rowsOf st s ks d)
   | .bogus => .error .value
 
 /-- `AgentSet.set(attr_name, value)` -/
